@@ -322,3 +322,65 @@ func VerifC13_Session() {
 	verifrt.Assert(conn.Closes >= 1, "session.connection-closed")
 	verifrt.Assert(w.led.Opened == w.led.Closed, "session.all-handles-closed")
 }
+
+func verifWriteCmd(payload []byte) []byte {
+	req := make([]byte, 16)
+	req[0], req[1] = 0x12, 0x29
+	verifPut32(req[4:], uint32(len(payload)))
+	return append(req, payload...)
+}
+
+// A session of uploads on one connection, starting from the state the real code builds: create A,
+// write, then create again (the same path or another one) or not, write. What ends up stored under
+// the path created last is exactly what was written after that create; and no handle is lost. (How the
+// code gets an empty file - a new create+truncate open, or truncating and rewinding a kept handle - is its choice.)
+func VerifC05_Sequence() {
+	w := verifNewWorldOpts(false, false)
+	verifrt.Assume(w.h.AllowWrite)
+	pathA := [2]string{"/top", "/gone"}[verifrt.Choice("pathA", 2)]
+	step := func(req []byte) error {
+		w.conn.Out = nil
+		return w.send(req)
+	}
+	verifrt.Assert(step(verifPathCmd(0x1228, pathA)) == nil && int32(verifGet32(w.conn.Out)) == 0, "sequence.create-a")
+	n1 := verifrt.Choice("len1", 3)
+	p1 := verifrt.Bytes("payload1", n1)
+	verifrt.Assert(step(verifWriteCmd(p1)) == nil && int(int32(verifGet32(w.conn.Out))) == n1, "sequence.write-1")
+	second := verifrt.Choice("second", 3) // 0: keep writing, 1: create the same path again, 2: create another path
+	pathB := pathA
+	if second == 2 {
+		pathB = "/d/new"
+	}
+	if second != 0 {
+		verifrt.Assert(step(verifPathCmd(0x1228, pathB)) == nil && int32(verifGet32(w.conn.Out)) == 0, "sequence.create-b")
+	}
+	n2 := 1 + verifrt.Choice("len2", 2)
+	p2 := verifrt.Bytes("payload2", n2)
+	verifrt.Assert(step(verifWriteCmd(p2)) == nil && int(int32(verifGet32(w.conn.Out))) == n2, "sequence.write-2")
+
+	h := w.base.LastHandle(pathB)
+	verifrt.Assert(h != nil, "sequence.handle")
+	if h == nil {
+		return
+	}
+	var expect []byte
+	if second == 0 {
+		expect = append(expect, p1...)
+	}
+	expect = append(expect, p2...)
+	verifrt.Assert(len(h.Disk) == len(expect), "sequence.stored-length")
+	if len(h.Disk) == len(expect) {
+		same := true
+		for i := range expect {
+			same = same && h.Disk[i] == expect[i]
+		}
+		verifrt.Assert(same, "sequence.stored-bytes")
+	}
+	if second == 2 {
+		a := w.base.LastHandle(pathA)
+		verifrt.Assert(a != nil && a.Closes == 1 && len(a.Disk) == n1, "sequence.first-file-complete-and-closed")
+	}
+	w.noLeak("sequence")
+	_ = w.ctx.Close()
+	verifrt.Assert(w.led.Opened == w.led.Closed, "sequence.close-releases-all")
+}
